@@ -7,6 +7,16 @@ ALL = ["C%02d" % i for i in range(1, 21)]
 
 # property -> (category, technique, text, note, design_ref)
 CHECKS = {
+ "C06": ("exploration",
+   "bounded exhaustive enumeration of record matrices x kernel methods x dense / every sparse k x the three neighbour indices, and of linkage x every cluster count x boundary / midpoint thresholds, against an own kernel function and a tie-exploring Lance-Williams reference",
+   "Every subset of 2..5/6 points of the 3x3 lattice (plus generic-position images), 1-D multisets with duplicates, a 3-feature pool, and structured sets above the index leaf size; Linear / Gaussian / Polynomial kernels in f64 and f32; Dense and Sparse(k) for every 0<k<n with each neighbour index, owned kernels and views: every stored cell against the own kernel function, symmetry, Gaussian unit diagonal and PSD (Jacobi), sparse pattern squeezed between 'stored under every tie-break' and 'under some tie-break' of a brute-force ranking (exact on generic sets), size / sum / column / diagonal / upper triangle / dot against the stored matrix, documented panics. Clustering: 7 linkages x NumClusters(1..n+1) x thresholds exactly at and between every dissimilarity: label count == min(c, n), partition reachable by the reference agglomeration (ties followed exhaustively), single linkage == connected components of {d < t}.",
+   "Bounded: n <= 6 in the exhaustive families. Heights within rounding of a threshold, Centroid / Median dendrograms with inversions and reference-budget overflows on the large sets are counted indeterminate. The threshold convention follows the statement (merges strictly below the threshold), not the rustdoc wording.",
+   "DESIGN.md 4/C06"),
+ "C10": ("exploration",
+   "exhaustive run of an enumerated finite catalogue of datasets x the full configuration grid x a query menu reaching 1e6 standard deviations, against mixture validity conditions recomputed in plain f64",
+   "60/120 deterministic blob datasets (separated, overlapping, anisotropic, far apart, degenerate; 1-3/6 features) x components 1..3 x {KMeans, Random} init x seeds 0..3/15 x reg_covar x tolerance x n_runs x iteration caps; per fitted model: weights > 0 summing to 1, means in the bounding box, covariances symmetric / positive definite (own Cholesky) with the regularised diagonal, precisions x covariances == I within a condition-scaled bound, the M-step moment identities, and for every training row, every component mean and every point at exact Mahalanobis distance {10, 38, 39, 100, 1e3, 1e6} along every axis and diagonal: predict_proba finite, non-negative, summing to one, equal to the posterior of the published parameters; predict in the tie set. An Err from fit is accepted, a panic or a non-finite model is not.",
+   "A bounded claim over the catalogue x grid, not over all real matrices. f64 only. 'Failure to converge is an error' is checked as 'Ok implies a valid finite model' (no lock-step reference EM).",
+   "DESIGN.md 4/C10"),
  "C14": ("exploration",
    "bounded exhaustive enumeration of every small labelled dataset (all value sequences x all labelings up to renaming) x the full hyper-parameter grid, each fitted tree walked and re-derived from the routed training rows",
    "Every value sequence of n <= 5/6 rows over 1-feature alphabets {0,1,2} / {0..3}, 2-feature lattices, adjacent-float families (f32 at 2^24 and 256, f64 at 2^53 and 2^40) and 1e-5-spaced values x every labeling up to class renaming (up to 6 classes; duplicates with conflicting labels, constant features) x label types usize / bool / String x f32 / f64 x sample weights {none, 1,2,1,2.., 0.5} x {Gini, Entropy} x max_depth {None,0,1,2} x min_weight_split x min_weight_leaf x min_impurity_decrease (144 configurations). Oracle (no linfa code): walk the public tree API, route the training rows with the documented <= rule, and recompute depth limits, child structure, split row counts, side weights, impurity decreases (f64), leaf weighted modes (any tied mode accepted), predict == routed leaf, importances, and the agreement of iter_nodes / max_depth / num_leaves with the walk. The subject runs in worker processes so that a stack overflow of fit is reported instead of killing the check; hash-map order is a controlled input of each case.",
